@@ -54,8 +54,10 @@ TECHNIQUE = ("Lean 4: verified validator (Boolean checker proved equivalent to a
              "pass output + invariant proofs of pass models (substitution lemma, foldl invariants) + differential correspondence model/pass")
 RULE = ("inputs: fixed corpus (CFG shapes of every past finding: constant cjump with dead arm / stale phi / same target / dead loop, tail "
         "call with loop-header entry, mem2reg critical edges, empty-block chains, values in two operand slots, indirect call through a "
-        "replaced value), front-end produced modules (c_to_ir of 7 C sources), irgen modules (6 configurations) optionally pessimised "
-        "(x+0, constant cjumps, values/phis demoted to stack slots). pipelines per input: 9 single passes, api.optimize levels, random "
+        "replaced value, degenerate control flow: identical arms, arms that become the same empty block, forwarding chains, self loops), "
+        "front-end produced modules (c_to_ir of 8 C sources incl. gotos to following labels and empty arms), irgen modules (6 "
+        "configurations) optionally pessimised (x+0, constant cjumps, values/phis demoted to stack slots) and rewritten into degenerate "
+        "control flow (degenerate_cfg, also applied to front-end and corpus modules). pipelines per input: 9 single passes, api.optimize levels, random "
         "sequences of 3..10 passes. evaluation = one pass application whose output differs from its input; distinct non-trivial = distinct "
         "(input, pipeline, step) whose output differs from its input")
 TRUSTED = [
@@ -691,10 +693,10 @@ def check(ctx):
     ctx.extra_cov["optimize_pipeline"] = order
     ctexts = c_texts()
     inputs = corpus_texts() + ctexts
-    ngen = 100 if ctx.thorough else 5
+    ngen = 50 if ctx.thorough else 4
     inputs += gen_texts(ctx, ngen)
     small_c = [x for x in ctexts if len(x[1]) < 9000]
-    inputs += degenerate_texts(ctx, small_c if ctx.thorough else small_c[:3], 3 if ctx.thorough else 1)
+    inputs += degenerate_texts(ctx, small_c if ctx.thorough else small_c[:3], 2 if ctx.thorough else 1)
     inputs += degenerate_texts(ctx, [x for x in corpus_texts() if x[0].split(":")[1].startswith(("mem2reg", "tailcall", "clean", "cjump"))],
                                2 if ctx.thorough else 1)
     plans = []
